@@ -1,7 +1,7 @@
 UNITS = {"c02node": dict(pkg="./pkg/controller/multi-ip/node", tags="default_build", shrinktime="40s")}
 
 # deterministic witnesses of the open findings listed in known_findings.json
-_W = ["DoubleFaultOrphan", "GreedyDemand", "RDMAIdle", "DualStackImbalance", "LostWrite", "SyncDropsDetachedENI", "EFLOPartialKeyCollision"]
+_W = ["DoubleFaultOrphan", "GreedyDemand", "RDMAIdle", "DualStackImbalance", "SyncDropsDetachedENI", "EFLOPartialKeyCollision", "ExhaustedVSwitchHidesIdle"]
 
 PROPS = {
     "C08": dict(
@@ -17,7 +17,7 @@ PROPS = {
             "Detach of a missing interface and UnAssign of missing addresses succeed, Delete of a missing interface fails on ECS, DescribeNetworkInterfaces ANDs its filters; whether a query by interface id AND instance id also answers an interface that is attached to no instance cannot be confirmed offline, so each case draws one of the two semantics (strict: not answered / lenient: answered), "
             "the ECS create answer carries no traffic mode, addresses are never reused; idempotency tokens are below this interface (a create that took effect but timed out leaves an interface the controller was never told about: excluded from the orphan check)",
             "quota monitors judge a request against what the controller has been TOLD (Describe answers, successful Create/Assign answers, minus what it released), not against cloud ground truth; a restarted controller knows the persisted record",
-            "convergence clause asserted only with spare capacity: every vSwitch option of the zone has >= 200 free addresses, the cloud admits as many interfaces as the node declares and no interface invisible to the controller uses up the quota; "
+            "convergence clause asserted only with spare capacity: at least one vSwitch option of the node's zone has >= 200 free addresses (the others may be exhausted or nearly so - the real vswitch.SwitchPool with its cached, possibly stale counts is used, the controller is expected to block a vSwitch the cloud refused and move on; a refused create per reconcile is a mutation request that never stops), growing an existing interface needs >= 20 free addresses on ITS vSwitch, the cloud admits as many interfaces as the node declares and no interface invisible to the controller uses up the quota; "
             "'served' excludes nothing in this mode (no drift); idle is counted as adjustPool counts it; idle primaries of interfaces that must stay (in-use siblings, trunk, rdma) are exempt from the upper bound; "
             "a fixed point = three consecutive reconciles without mutating cloud request and without change of the record's interfaces/addresses/bindings (sync timestamps and error conditions ignored); a pass may still report 'no capacity'",
             "rollback clause: per pass, everything the controller was told and did not release is in the record it persisted; at the fixed point record == cloud for interfaces attached to the instance and their address sets "
